@@ -406,13 +406,21 @@ def family_flags(pre, op):
     elems, cont, field, where = r
     stmt_level = (isinstance(elems, list) and elems and all(isinstance(e, (ast.stmt, ast.ExceptHandler, ast.match_case)) for e in elems)) \
         or field in ('body', 'orelse', 'finalbody', 'handlers', 'cases') or op['k'] in ('put_docstr', 'put_line_comment')
+    vheader = None
+    if op.get('field') in ('_bases', '_args', '_all', '_attrs') and op['k'] not in ('replace', 'remove', 'cut'):
+        # virtual fields whose elements are expressions: the elements sit in the brackets of the node itself (for a
+        # ClassDef: in its header, i.e. everything before its first body statement)
+        stmt_level = False
+        if isinstance(cont, ast.ClassDef) and cont.body:
+            d0 = min([cont.lineno] + [d.lineno for d in cont.decorator_list])
+            vheader = (d0, 0, cont.body[0].lineno, pre.b2c(cont.body[0].lineno, cont.body[0].col_offset))
     P.add('stmt_level' if stmt_level else 'expr_level')
     if stmt_level and isinstance(elems, list) and elems and field in ('orelse', 'finalbody') and cont is not None:
         lst = getattr(cont, field, None)
         if isinstance(lst, list) and len(lst) == len(elems):
             P.add('empties_optional_block')
     if not stmt_level and cont is not None:
-        x = pre.extent(cont)
+        x = vheader or pre.extent(cont)
         if not hasattr(cont, 'lineno') and not isinstance(cont, ast.arguments):
             # positionless container (comprehension, withitem, ...): the bracketed container is its nearest positioned ancestor
             parents = {}
